@@ -2,6 +2,7 @@ package main
 
 import (
 	"fmt"
+	"os"
 	"sync"
 )
 
@@ -74,7 +75,7 @@ type mstate struct {
 }
 
 func NewSched(in *Interp, maxPreempt int) *Sched {
-	s := &Sched{in: in, kill: make(chan struct{}), maxPreempt: maxPreempt, mutex: map[Ptr]*mstate{}, wgs: map[Ptr]*int{}, atomVals: map[Ptr]V{}, yieldObj: new(int)}
+	s := &Sched{in: in, kill: make(chan struct{}), maxPreempt: maxPreempt, mutex: map[Ptr]*mstate{}, wgs: map[Ptr]*int{}, atomVals: map[Ptr]V{}, yieldObj: new(int), noSleep: os.Getenv("GOSYM_NOSLEEP") != ""}
 	main := &G{id: 0, resume: make(chan struct{}, 1)}
 	s.gs = []*G{main}
 	s.cur = main
